@@ -74,6 +74,13 @@ func (p *Preprocessor) CFG(graph *cfg.CFG, funcDecl *ast.FuncDecl) *cfg.CFG {
 			p.splitBlockOnTrustedFuncs(graph, block, failureBlock)
 		}
 	}
+	// The branch condition of a case block of an expression switch is `tag == case expression`, not
+	// the case expression itself, so it must be re-inserted before the conditionals are
+	// canonicalized: canonicalizing a bare case expression (e.g., `case !p:` or `case a && b:`)
+	// as if it were the branch condition would restructure the chain of case blocks.
+	rangeChildren, switchChildren, typeSwitchChildren := collectChildren(funcDecl)
+	markSwitchStatements(graph, switchChildren)
+
 	for _, block := range graph.Blocks {
 		if block.Live {
 			p.canonicalizeConditional(graph, block)
@@ -93,9 +100,7 @@ func (p *Preprocessor) CFG(graph *cfg.CFG, funcDecl *ast.FuncDecl) *cfg.CFG {
 	// knowing the links between the nodes contained within a block to their parents
 	// (*ast.RangeStmt, *ast.SwitchStmt, or *ast.TypeSwitchStmt nodes).
 	// So, here establish the link and then do the work.
-	rangeChildren, switchChildren, typeSwitchChildren := collectChildren(funcDecl)
 	markRangeStatements(graph, rangeChildren)
-	markSwitchStatements(graph, switchChildren)
 	p.markTypeSwitchStatements(graph, typeSwitchChildren)
 
 	// Please check the docstring of the following call to see why this is needed.
